@@ -239,7 +239,8 @@ case('legal', 'everything legal at once', None,
      Top_only=["connect(s.m.i, s.i)", "connect(s.n.i, s.m.o)", "connect(s.o, s.n.o)", "connect(s.m.si, s.sti)", "@update\ndef tb(): s.n.si @= Pt(s.i[0:4], s.i[4:8])"])
 
 
-def orders(n, limit=6):
+def orders(n, limit=None):
+  limit = limit or int(os.environ.get('VERIF_ORDERS', '6'))      # thorough tier: 24
   ps = list(itertools.permutations(range(n)))
   if len(ps) <= limit: return ps
   step = len(ps) / limit
